@@ -157,10 +157,7 @@ class ExprMixin:
         if isinstance(v, int):
             return str(v)
         if is_sym(v) and z3.is_int(v):
-            # A-FMT needs non-negative ints
-            self.oblige(st, f'safety.fmt_nonneg@{line}', v >= 0, kind='safety', line=line)
-            st.assume(v >= 0)
-            return v
+            return v   # A-FMT needs non-negative ints: obligation generated where the string is compared
         if v is None:
             return 'None'
         if isinstance(v, Opaque) and v.kind == 'str':
@@ -349,6 +346,12 @@ class ExprMixin:
                 return False
             raise EngineError('== None on ' + type(other).__name__)
         if isinstance(a, FStr) or isinstance(b, FStr):
+            for x in (a, b):
+                if isinstance(x, FStr):
+                    for part in x.parts:
+                        if is_sym(part) and z3.is_int(part) and part.sexpr() not in self._fmt_checked:
+                            self._fmt_checked.add(part.sexpr())
+                            self.oblige(st, 'safety.fmt_nonneg', part >= 0, kind='safety')
             return self.fstr_eq(a, b)
         if is_sym(a) and z3.is_string(a) and isinstance(b, str):
             return a == z3.StringVal(b)
